@@ -20,23 +20,18 @@ def showFill : Except FillErr Bytes → String
   | .ok b => "OK " ++ hex b
   | .error _ => "ERR"
 
-def dgOf (vpn : Bool) (frame : Bytes) (n : Nat) : Bytes := if vpn then frame else (frame.drop 14).take n
-
-def linkOK (frame dstMAC srcMAC : Bytes) (etherType n : Nat) : Bool :=
-  frame.take 6 == dstMAC && (frame.drop 6).take 6 == srcMAC && u16 frame 12 == some etherType &&
-  frame.length == max 60 (14 + n) && (frame.drop (14 + n)).all (· == 0)
-
-def reqOK (r : Req) : Bool :=
-  r.srcIP.length == 4 && r.dstIP.length == 4 && r.srcMAC.length == 6 && r.dstMAC.length == 6
+/-- the 4-byte form of an address given as 4 bytes or as 16-byte IPv4-mapped (C05_mapped / C05_addr_form) -/
+def v4 (a : Bytes) : Bytes :=
+  if a.length == 16 && a.take 12 == [0, 0, 0, 0, 0, 0, 0, 0, 0, 0, 0xff, 0xff] then a.drop 12 else a
 
 /-- the conclusion of the C05 theorems, as a check on an observed frame (inputs: requested fields and the
     three random fields read back from the frame) -/
-def specFill (kind : String) (kv : List (String × String)) (r : Req) (rnd : List Nat) (frame : Bytes) : Bool :=
+def specFill (kind : String) (kv : List (String × String)) (payload : Bytes) (r : Req) (rnd : List Nat) (frame : Bytes) : Bool :=
   let vpn := kvNat kv "vpn" == 1
   match kind, rnd with
   | "tcp", [id, p, sq] =>
-    let dg := dgOf vpn frame 52
-    (vpn || linkOK frame r.dstMAC r.srcMAC 0x0800 52) && dg.length == 52 &&
+    let dg := datagram vpn frame 52
+    (vpn || decide (LinkOK frame r.dstMAC r.srcMAC 0x0800 52)) && dg.length == 52 &&
     ipFields dg == some { version := 4, ihl := 5, totalLen := 52, id := 1 + id, flags := 2, fragOff := 0, ttl := 64,
                           proto := 6, src := r.srcIP, dst := r.dstIP } &&
     decide (csumValid (dg.take 20)) &&
@@ -45,38 +40,37 @@ def specFill (kind : String) (kv : List (String × String)) (r : Req) (rnd : Lis
     decide (csumValid (dg.drop 20) (pseudoSum r.srcIP r.dstIP 6 32)) &&
     1 ≤ 1 + id && 1 + id ≤ 65535 && 32768 + p ≤ 60999
   | "udp", [id, p, _] =>
-    let payload := kvBytes kv "payload"
     let n := 28 + payload.length
-    let dg := dgOf vpn frame n
+    let dg := datagram vpn frame n
     let iplen := kvNat kv "iplen"
-    (vpn || linkOK frame r.dstMAC r.srcMAC 0x0800 n) && dg.length == n &&
+    (vpn || decide (LinkOK frame r.dstMAC r.srcMAC 0x0800 n)) && dg.length == n &&
     ipFields dg == some { version := 4, ihl := 5, totalLen := if iplen == 0 then n else iplen, id := 1 + id,
                           flags := kvNat kv "ipflags", fragOff := 0, ttl := kvNat kv "ttl", proto := kvNat kv "proto",
                           src := r.srcIP, dst := r.dstIP } &&
     decide (csumValid (dg.take 20)) &&
     udpFields (dg.drop 20) == some { sport := 32768 + p, dport := r.dstPort, len := 8 + payload.length, payload := payload } &&
     decide (csumValid (dg.drop 20) (pseudoSum r.srcIP r.dstIP 17 (8 + payload.length))) &&
-    1 + id ≤ 65535 && 32768 + p ≤ 60999
+    1 ≤ 1 + id && 1 + id ≤ 65535 && 32768 + p ≤ 60999
   | "icmp", [id, icmpId, _] =>
-    let payload := kvBytes kv "payload"
     let n := 28 + payload.length
-    let dg := dgOf vpn frame n
+    let dg := datagram vpn frame n
     let iplen := kvNat kv "iplen"
-    (vpn || linkOK frame r.dstMAC r.srcMAC 0x0800 n) && dg.length == n &&
+    (vpn || decide (LinkOK frame r.dstMAC r.srcMAC 0x0800 n)) && dg.length == n &&
     ipFields dg == some { version := 4, ihl := 5, totalLen := if iplen == 0 then n else iplen, id := 1 + id,
                           flags := kvNat kv "ipflags", fragOff := 0, ttl := kvNat kv "ttl", proto := kvNat kv "proto",
                           src := r.srcIP, dst := r.dstIP } &&
     decide (csumValid (dg.take 20)) &&
     icmpFields (dg.drop 20) == some { typ := kvNat kv "type", code := kvNat kv "code", id := 1 + icmpId, seq := 1, payload := payload } &&
-    decide (csumValid (dg.drop 20))
+    decide (csumValid (dg.drop 20)) &&
+    1 ≤ 1 + id && 1 + id ≤ 65535 && 1 ≤ 1 + icmpId && 1 + icmpId ≤ 65535
   | "arp", _ =>
-    linkOK frame [0xff, 0xff, 0xff, 0xff, 0xff, 0xff] r.srcMAC 0x0806 28 &&
+    decide (LinkOK frame [0xff, 0xff, 0xff, 0xff, 0xff, 0xff] r.srcMAC 0x0806 28) &&
     arpFields (frame.drop 14) == some { htype := 1, ptype := 0x0800, hlen := 6, plen := 4, oper := 1, sha := r.srcMAC,
                                         spa := r.srcIP, tha := [0, 0, 0, 0, 0, 0], tpa := r.dstIP }
   | _, _ => false
 
 def handleFill : List String → Option String
-  | [kind, opts, req, rnd, obs] => do
+  | [kind, opts, req, rnd, aux, obs] => do
     let kv := kvOf opts
     let r : Req ← match req.splitOn "," with
       | [s, d, sm, dm, p] => do
@@ -85,23 +79,37 @@ def handleFill : List String → Option String
       | _ => none
     let rnd ← (rnd.splitOn ",").mapM (·.toNat?)
     let vpn := kvNat kv "vpn" == 1
+    -- icmp without --payload: the filler draws 48 bytes itself; they come back in `aux`
+    let requested := kvBytes kv "payload"
+    let selfChosen := kind == "icmp" && requested.isEmpty
+    let payload ← if selfChosen then (if aux == "-" then some [] else unhex ((aux.drop 1).toString)) else some requested
     let o : IPOpts := { ttl := kvNat kv "ttl", len := kvNat kv "iplen", proto := kvNat kv "proto", flags := kvNat kv "ipflags",
-                        payload := kvBytes kv "payload", vpn := vpn }
+                        payload := payload, vpn := vpn }
     let model := match kind, rnd with
       | "tcp", [id, p, seq] => fillTCP vpn (kvNat kv "flags") r id p seq
       | "udp", [id, p, _] => fillUDP o r id p
       | "icmp", [id, iid, _] => fillICMP o (kvNat kv "type") (kvNat kv "code") r id iid
       | "arp", _ => fillARP r
       | _, _ => .error .srcIP
-    -- Spec: a well-formed request must yield a frame with the requested fields; a request whose
-    -- addresses are not IPv4 or whose MACs are not 6 bytes must not yield a well-formed-looking probe
-    let wellFormed := reqOK r || (kind == "arp" && r.srcIP.length == 4 && r.dstIP.length == 4 && r.srcMAC.length == 6)
-      || (vpn && kind != "arp" && r.srcIP.length == 4 && r.dstIP.length == 4)
+    -- Spec: a request inside the hypotheses of the C05 theorems (ReqOK / ArpReqOK after reading IPv4-mapped
+    -- addresses as their 4-byte form, payload within the IPv4 maximum) must yield a frame with the
+    -- conclusion of the theorem; a request with a non-IPv4 address or (Ethernet) a MAC that is not 6 bytes
+    -- must be refused (C05_refused_*)
+    let r4 : Req := if kind == "arp" then r else { r with srcIP := v4 r.srcIP, dstIP := v4 r.dstIP }
+    let addrOK := r4.srcIP.length == 4 && r4.dstIP.length == 4
+    let macsOK := r.srcMAC.length == 6 && r.dstMAC.length == 6
+    let inHyp :=
+      if kind == "arp" then addrOK && r.srcMAC.length == 6
+      else addrOK && (vpn || macsOK) && (kind == "tcp" || payload.length ≤ 65507)
+    let mustRefuse := kind != "arp" && (!addrOK || (!vpn && !macsOK))
     let verdict :=
       if obs == "PANIC" then false
-      else if obs == "ERR" then !wellFormed
+      else if obs == "ERR" then !inHyp
       else match (obs.drop 3).toString |> unhex with
-        | some frame => if wellFormed then specFill kind kv r rnd frame else true
+        | some frame =>
+          if mustRefuse then false
+          else if inHyp then specFill kind kv payload r4 rnd frame && (!selfChosen || payload.length == 48)
+          else true
         | none => false
     pure s!"{showFill model}\t{b2s verdict}"
   | _ => none
